@@ -422,7 +422,10 @@ func ruleC15Dispatch(c *Ctx) {
 			}
 			if cal != nil && cal.Pkg != nil && cal.Pkg.Pkg.Path() == "strings" && cal.Name() == "Compare" {
 				sawDefault = true
-				if !(textOf(t.Args[0], a) && textOf(t.Args[1], b)) {
+				// a string is its own text: the right operand found to be a string on this path may stand for text(b)
+				bIsString := len(t.Args) == 2 && t.Args[1].Op == "ext" && t.Args[1].Name == "0" && len(t.Args[1].Args) == 1 && t.Args[1].Args[0].Op == "assertok" && t.Args[1].Args[0].Name == "string" &&
+					len(t.Args[1].Args[0].Args) == 1 && t.Args[1].Args[0].Args[0].Op == "param" && t.Args[1].Args[0].Args[0].Name == b
+				if !(textOf(t.Args[0], a) && (textOf(t.Args[1], b) || bIsString)) {
 					ok, why = false, "default arm does not compare text(a) with text(b) in order: "+t.String()
 				}
 				continue
@@ -435,6 +438,17 @@ func ruleC15Dispatch(c *Ctx) {
 					if as, isAs := callArgs(t.Args[0], "As"); isAs && len(as) == 1 && as[0].Op == "param" && as[0].Name == a {
 						left = true
 					} else if t.Args[0].Op == "call" && strings.Contains(t.Args[0].Name, "As[") && len(t.Args[0].Args) == 1 && t.Args[0].Args[0].Op == "param" && t.Args[0].Args[0].Name == a {
+						left = true
+					}
+				}
+				// ... or by the conversion Cmp itself starts with: float64(a.(T)) handed to Cmp[float64] (a helper predicate
+				// `number(v) (float64, bool)` in front of the dispatch)
+				if len(t.Args) == 2 && !left && strings.HasSuffix(t.Name, "Cmp[float64]") {
+					x := t.Args[0]
+					if x.Op == "conv" && x.Name == "float64" && len(x.Args) == 1 {
+						x = x.Args[0]
+					}
+					if x.Op == "ext" && x.Name == "0" && len(x.Args) == 1 && x.Args[0].Op == "assertok" && len(x.Args[0].Args) == 1 && x.Args[0].Args[0].Op == "param" && x.Args[0].Args[0].Name == a {
 						left = true
 					}
 				}
